@@ -39,6 +39,10 @@ StdTolPdeg(scale_mas) == (scale_mas * 1000) \div 3600
 \* the code's answer and astropy.wcs all_pix2world(col, row, origin = 1)
 StandardMapping(r) == r.std_pdeg >= 0 /\ r.std_pdeg <= StdTolPdeg(r.scale_mas)
 
+\* the other direction of the inverse law, for a catalogue position shared by many images:
+\* pix2sky(sky2pix(s)) = s  (separation in 1e-12 deg, same tolerance as a 1e-6 pixel step)
+SkyRoundTrip(r) == r.skyrt_pdeg >= 0 /\ r.skyrt_pdeg <= StdTolPdeg(r.scale_mas)
+
 \* the query can tell the standard mapping from its two classic corruptions
 \* (x/y swapped: all_pix2world(row, col, 1); 0-based: all_pix2world(col, row, 0))
 Discriminating(r) == /\ r.alt_swap_pdeg > 1000 * StdTolPdeg(r.scale_mas)
